@@ -185,6 +185,27 @@ func runC22(c *Ctx) {
 		sort.Strings(got)
 		c.Check(ok, "R-TABLE", "Name."+r.field, "attribute "+r.oid+" written from Name."+r.field+" is read back into Name."+r.field, c.W.Pos(fd.Pos()), "reader fields: "+strings.Join(got, ","))
 	}
+	// the other direction: a field the reader fills is emitted by the writer under the same OID
+	// (otherwise a Name built from its fields loses it). Mirror fields that merely duplicate a
+	// single-valued attribute are exempt.
+	mirrors := map[string]string{"CommonNames": "all common names; the writer emits CommonName", "SerialNumbers": "all serial numbers; the writer emits SerialNumber"}
+	wset := map[string]bool{}
+	for _, r := range writer {
+		wset[r.oid+"/"+r.field] = true
+	}
+	for _, o := range oids {
+		var fs []string
+		for f := range reader[o] {
+			fs = append(fs, f)
+		}
+		sort.Strings(fs)
+		for _, f := range fs {
+			if _, ok := mirrors[f]; ok {
+				continue
+			}
+			c.Check(wset[o+"/"+f], "R-TABLE", "Name."+f, "attribute "+o+" read into Name."+f+" is also written from Name."+f, c.W.Pos(fd.Pos()), "")
+		}
+	}
 	// OriginalRDNS round trip
 	if fill := w.Fn(fnFillRDN); fill != nil {
 		n := 0
